@@ -175,6 +175,60 @@ func c04Cell(b *core.B, family, tmpl string) {
 	b.NonTrivialDistinct()
 }
 
+type c04Key string
+type c04IKey int
+type c04FKey float64
+
+// c04SameNodeOtherKinds: one parsed expression meets values of every kind, one after the
+// other - in later executions of its template, and in later passes of one loop. What it
+// learnt about the first value (a key type, a method, a length) says nothing about the next.
+func c04SameNodeOtherKinds(b *core.B) {
+	type kv struct {
+		name string
+		v    interface{}
+	}
+	var pool []kv
+	for _, k := range Kinds {
+		if v := k.Make(); v != nil {
+			pool = append(pool, kv{k.Name, v})
+		}
+	}
+	pool = append(pool,
+		kv{"map-named-string-key", map[c04Key]int{"a": 1, "k": 2}}, kv{"map-string-key", map[string]int{"a": 1}}, kv{"map-iface-key", map[interface{}]int{"a": 1, 0: 2}},
+		kv{"map-named-int-key", map[c04IKey]string{0: "z", 1: "o"}}, kv{"map-int-key", map[int]string{0: "z"}}, kv{"map-int64-key", map[int64]string{0: "z"}}, kv{"map-uint8-key", map[uint8]string{0: "z"}},
+		kv{"map-named-float-key", map[c04FKey]string{1.5: "f"}}, kv{"map-float-key", map[float64]string{1.5: "f"}}, kv{"map-bool-key", map[bool]string{true: "t"}},
+		kv{"slice-of-named", []c04Key{"a"}}, kv{"array", [2]string{"a", "b"}}, kv{"ptr-to-slice", &[]int{1}})
+	exprs := []string{`v["a"]`, `v[0]`, `v[1.5]`, `v[true]`, `v[k]`, `v.Name`, `v.Name.First`, `v.Label()`, `v + 1`, `v + "s"`, `1 + v`, `v == v`, `v ~= "a"`, `len(v)`, `v()`, `v(1)`, `!v`, `v && v`, `inspect(v)`}
+	r := b.Rng(0xC04A)
+	for _, e := range exprs {
+		for _, form := range []string{"<%= E %>", "<% let x = E %><%= x %>", "<%= for (i) in [1] { %><%= E %><% } %>", "<%= if (E) { %>y<% } %>"} {
+			src := strings.Replace(form, "E", e, -1)
+			if !b.Begin(src + "  (one parsed template, " + fmt.Sprint(len(pool)) + " kinds of v in turn)") {
+				continue
+			}
+			b.NonTrivialStr(src, "same-node-other-kinds")
+			b.Count("same-node-other-kinds")
+			t, err := plush.NewTemplate(src)
+			if err != nil {
+				continue
+			}
+			order := r.Perm(len(pool))
+			for round := 0; round < 2; round++ {
+				for _, k := range order {
+					ctx := plush.NewContext()
+					ctx.Set("v", pool[k].v)
+					ctx.Set("k", "a")
+					if pan := core.Guard(func() { _, _ = t.Exec(ctx) }); pan != nil {
+						b.ViolateIn("same-node-other-kinds|"+pan.Sig(), src+"  with v a "+pool[k].name, fmt.Sprintf("execution of one parsed template after %d other kinds of v: %s", k, pan.Value))
+						return
+					}
+					b.Count("same-node-other-kinds:executions")
+				}
+			}
+		}
+	}
+}
+
 func c04Run(b *core.B) {
 	var idx int64
 	cell := func(family, tmpl string) {
@@ -190,6 +244,9 @@ func c04Run(b *core.B) {
 	small := make([]string, len(SmallKinds))
 	for i, k := range SmallKinds {
 		small[i] = "v_" + k
+	}
+	if b.Batch == 0 {
+		c04SameNodeOtherKinds(b)
 	}
 	lits := []string{"0", "1", "2", "99", "0 - 1", `"a"`, `"zz"`, "nil", "true", "1.5", "[1, 2]", "{a: 1}", "-1", "fn(a) { return a }"}
 
